@@ -1,4 +1,4 @@
-import BridgeVerif.Translated.Enc
+import BridgeVerif.Translated.EncBase
 import BridgeVerif.Spec.Scoring
 /-! `calc_bid_score` AS TRANSLATED, on the bids of level 3 (kernel evaluation of the translated program; see Score.lean) -/
 namespace Bridge.Translated
